@@ -27,9 +27,9 @@ func init() {
 			}
 			return 60000
 		},
-		Gen:    genC12,
-		Run:    runC12,
-		Shrink: shrinkHist,
+		Gen:        genC12,
+		Run:        runC12,
+		ShrinkLazy: shrinkHistLazy,
 	})
 }
 
@@ -487,46 +487,93 @@ func runC12Fault(sc *Scenario, f Fault, base Event, st *Stats) []Violation {
 // drop initial pairs, simplify config.
 func shrinkHist(sc *Scenario) []*Scenario {
 	var out []*Scenario
-	fix := func(c *Scenario) *Scenario {
-		c.Clients = []Client{{Stmts: histStmts(c.Hist)}}
-		return c
-	}
-	for i := range sc.Hist {
-		c := cloneScenario(sc)
-		c.Hist = append(append([]HistStmt{}, c.Hist[:i]...), c.Hist[i+1:]...)
-		c.Faults = nil
-		out = append(out, fix(c))
-	}
-	for i := range sc.Hist {
-		for j := range sc.Hist[i].Pairs {
-			if len(sc.Hist[i].Pairs) <= 1 {
-				continue
-			}
-			c := cloneScenario(sc)
-			ps := c.Hist[i].Pairs
-			c.Hist[i].Pairs = append(append([]HistPair{}, ps[:j]...), ps[j+1:]...)
+	shrinkHistLazy(sc, func(c *Scenario) bool {
+		out = append(out, c)
+		return len(out) >= 400 // an eager caller gets a bounded list
+	})
+	return out
+}
+
+// shrinkHistLazy proposes one candidate at a time. Candidates share what they
+// do not change with sc (a statement of 66000 pairs is never copied per
+// candidate), pairs are dropped in halves, quarters, ... and singly only once
+// a statement is short.
+func shrinkHistLazy(sc *Scenario, try func(*Scenario) bool) {
+	mk := func(hist []HistStmt, keepFaults bool) *Scenario {
+		c := *sc
+		c.Hist = hist
+		if !keepFaults {
 			c.Faults = nil
-			out = append(out, fix(c))
+		}
+		c.Clients = []Client{{Stmts: histStmts(hist)}}
+		return &c
+	}
+	with := func(i int, h HistStmt) []HistStmt {
+		hist := append([]HistStmt{}, sc.Hist...)
+		hist[i] = h
+		return hist
+	}
+	for i := range sc.Hist {
+		if try(mk(append(append([]HistStmt{}, sc.Hist[:i]...), sc.Hist[i+1:]...), false)) {
+			return
+		}
+	}
+	for i := range sc.Hist {
+		ps := sc.Hist[i].Pairs
+		n := len(ps)
+		proposed := 0
+		for chunk := n / 2; chunk >= 1 && n > 1; chunk /= 2 {
+			for from := 0; from < n; from += chunk {
+				to := from + chunk
+				if to > n {
+					to = n
+				}
+				h := sc.Hist[i]
+				h.Pairs = append(append(make([]HistPair, 0, n-(to-from)), ps[:from]...), ps[to:]...)
+				proposed++
+				if try(mk(with(i, h), false)) {
+					return
+				}
+			}
+			if chunk == 1 || proposed > 130 {
+				break
+			}
 		}
 		for j := range sc.Hist[i].Extra {
-			c := cloneScenario(sc)
-			ex := c.Hist[i].Extra
-			c.Hist[i].Extra = append(append([]string{}, ex[:j]...), ex[j+1:]...)
-			out = append(out, fix(c))
+			h := sc.Hist[i]
+			h.Extra = append(append([]string{}, h.Extra[:j]...), h.Extra[j+1:]...)
+			if try(mk(with(i, h), true)) {
+				return
+			}
 		}
 		// replace expression texts by plain literals
-		for j, p := range sc.Hist[i].Pairs {
+		replaced := 0
+		for j, p := range ps {
+			if replaced >= 60 {
+				break
+			}
 			if p.Fail == "" && (p.KT != quote(p.K) || (sc.Hist[i].Kind == "put" && p.VT != quote(p.V))) {
-				c := cloneScenario(sc)
-				c.Hist[i].Pairs[j].KT = quote(p.K)
-				if sc.Hist[i].Kind == "put" {
-					c.Hist[i].Pairs[j].VT = quote(p.V)
+				h := sc.Hist[i]
+				h.Pairs = append([]HistPair{}, ps...)
+				h.Pairs[j].KT = quote(p.K)
+				if h.Kind == "put" {
+					h.Pairs[j].VT = quote(p.V)
 				}
-				out = append(out, fix(c))
+				replaced++
+				if try(mk(with(i, h), true)) {
+					return
+				}
 			}
 		}
 	}
-	out = append(out, shrinkInit(sc)...)
-	out = append(out, shrinkConfig(sc)...)
-	return out
+	for _, c := range shrinkInit(sc) {
+		if try(c) {
+			return
+		}
+	}
+	for _, c := range shrinkConfig(sc) {
+		if try(c) {
+			return
+		}
+	}
 }
